@@ -820,7 +820,7 @@ pub fn run_threads_case(ctx: &Ctx, case: &ThreadsCase) -> Outcome {
 }
 
 fn threads_family(ctx: &Ctx) -> Vec<ThreadsCase> {
-    let rounds = ctx.amount(4000, 100_000);
+    let rounds = ctx.amount(4000, 20_000);
     let progs: Vec<Vec<&str>> = vec![
         vec!["snapshot false probe"],
         vec!["create-db x{i} tok"],
